@@ -39,7 +39,7 @@ func drawBundle(rt *rapid.T, label string, weights []string) Bundle {
 	if b.Kind != "tar" && b.Kind != "truncated" {
 		return b
 	}
-	n := rapid.IntRange(0, 4).Draw(rt, label+".entries")
+	n := rapid.SampledFrom([]int{0, 1, 1, 2, 2, 3, 3, 4}).Draw(rt, label+".entries")
 	for i := 0; i < n; i++ {
 		l := fmt.Sprintf("%s.%d", label, i)
 		e := Entry{Seed: rapid.Uint64().Draw(rt, l+".seed")}
@@ -81,7 +81,7 @@ func drawLayout(rt *rapid.T) *Layout {
 	l := &Layout{}
 	l.ExeDir = rapid.SampledFrom([]string{"prefix/bin", "prefix/bin", "prefix/bin", "bin", "prefix/sbin", "prefix"}).Draw(rt, "exedir")
 	l.Launch = rapid.SampledFrom([]string{"direct", "direct", "direct", "symlink"}).Draw(rt, "launch")
-	kinds := []string{"absent", "absent", "tar", "tar", "tar", "tar", "truncated", "garbage", "dir"}
+	kinds := []string{"absent", "absent", "absent", "absent", "tar", "tar", "tar", "tar", "tar", "tar", "tar", "tar", "truncated", "garbage", "dir"}
 	l.Beside = drawBundle(rt, "beside", kinds)
 	l.Libexec = drawBundle(rt, "libexec", kinds)
 	// Collect names that exist somewhere, so that queries often hit.
@@ -97,7 +97,7 @@ func drawLayout(rt *rapid.T) *Layout {
 	for i := 0; i < n; i++ {
 		lab := fmt.Sprintf("q%d", i)
 		q := Query{Output: rapid.SampledFrom([]string{"", "", "new", "existing"}).Draw(rt, lab+".output")}
-		if len(have) > 0 && rapid.IntRange(0, 3).Draw(rt, lab+".known") != 0 {
+		if len(have) > 0 && rapid.IntRange(0, 4).Draw(rt, lab+".known") != 0 {
 			name := rapid.SampledFrom(have).Draw(rt, lab+".name")
 			i := strings.Index(name, "_")
 			q.Goos, q.Goarch = name[:i], name[i+1:]
@@ -352,6 +352,17 @@ func canonicalBoth() *Layout {
 
 var caseCounter int
 
+// aborted is set after harness trouble: the run is reported as inconclusive
+// (driver exit 2) and the remaining cases are not executed.
+var aborted bool
+
+func abort(format string, args ...any) {
+	if !aborted {
+		ev.Inconclusive("C46 harness trouble: "+format, args...)
+	}
+	aborted = true
+}
+
 func caseRoot(base string) string {
 	caseCounter++
 	return filepath.Join(base, fmt.Sprintf("case-%d", caseCounter))
@@ -372,28 +383,35 @@ func TestLayouts(t *testing.T) {
 		o := judge(canonicalBoth(), root)
 		os.RemoveAll(root)
 		if o.Harness != "" {
-			t.Fatalf("harness: %s", o.Harness)
-		}
-		if o.Violation != "" {
+			abort("%s", o.Harness)
+		} else if o.Violation != "" {
 			rec.ReportKnown(known)
 		} else {
 			rec.Note("known-finding-no-longer-reproduces", knownBothClass)
 		}
 	}
-	ev.Check(t, rec, 150, 3000, func(rt *rapid.T) {
+	ev.Check(t, rec, 100, 2500, func(rt *rapid.T) {
 		l := drawLayout(rt)
+		if aborted {
+			return
+		}
 		if excluded && l.BothLocations() {
 			rec.Excluded(knownBothClass)
-			// Keep the rest of the layout: drop the libexec bundle.
-			l.Libexec = Bundle{Kind: "absent"}
+			// Keep the rest of the layout: drop one of the two bundles.
+			if rapid.Bool().Draw(rt, "excluded.keep-libexec") {
+				l.Beside = Bundle{Kind: "absent"}
+			} else {
+				l.Libexec = Bundle{Kind: "absent"}
+			}
 		}
 		root := caseRoot(base)
 		defer os.RemoveAll(root)
 		o := judge(l, root)
-		rec.Eval()
 		if o.Harness != "" {
-			rt.Fatalf("harness: %s", o.Harness)
+			abort("%s", o.Harness)
+			return
 		}
+		rec.Eval()
 		if o.Violation != "" {
 			ev.Failf(rt, rec, l, "%s", o.Violation)
 		}
@@ -425,7 +443,8 @@ func TestReplay(t *testing.T) {
 	o := judge(&l, caseRoot(t.TempDir()))
 	rec.Eval()
 	if o.Harness != "" {
-		t.Fatalf("harness: %s", o.Harness)
+		abort("%s", o.Harness)
+		t.Skip("harness trouble")
 	}
 	if o.Violation != "" {
 		ev.FailTB(t, rec, &l, "%s", o.Violation)
